@@ -458,6 +458,78 @@ func init() {
 		},
 	})
 
+	// S6: two connections (the channel target made the client open a second one), then the server drops both.
+	vexp.Register(&vexp.Scenario{
+		Name: "c19.S6.two-connections-both-lost", Prop: "C19", Also: []string{"C09"}, MaxSteps: 200000,
+		Bounds: func(thorough bool) vexp.Bounds {
+			if thorough {
+				return vexp.Bounds{P: 2, F: 1, E: 0}
+			}
+			return vexp.Bounds{P: 1, F: 0, E: 0}
+		},
+		Configs: func(thorough bool) []map[string]int {
+			return []map[string]int{{"maxconns": 2, "target": 1, "auto": 1, "order": 0}, {"maxconns": 2, "target": 1, "auto": 1, "order": 1}, {"maxconns": 2, "target": 1, "auto": 1, "order": 2},
+				{"maxconns": 2, "target": 1, "auto": 0, "order": 0}, {"maxconns": 2, "target": 1, "auto": 0, "order": 1}, {"maxconns": 3, "target": 1, "auto": 1, "order": 2}}
+		},
+		Doc: "client with ClientMaxConns >= 2 and a channel target of 1: one open channel makes the client dial a second connection. Then the server drops both connections (order 0: older first, 1: newer first, 2: concurrently). At quiescence the flags must be consistent with the connection list (Connected implies that Conn returns a usable connection without dialling); an auto-connect client must come back BY ITSELF (no call is made), an on-demand client on its next call",
+		Body: func(x *vexp.Ctx) {
+			mode := ClientMode_OnDemand
+			if x.P("auto", 0) == 1 {
+				mode = ClientMode_AutoConnect
+			}
+			c, vc := newVClient(x, mode, nil, false)
+			ch, st := c.Channel(async.NoContext())
+			if !st.OK() || !c19echo(ch) {
+				x.Fail("first call fails on a reachable server", "%v", st)
+				return
+			}
+			vsched.Join("second connection opened by the channel target", func() bool { return vc.live() >= 2 })
+			vsched.WaitIdle("quiesce")
+			c19quiescent(x, c, vc, "two connections")
+			before := vc.dials
+			s0, s1 := vc.srvs[0], vc.srvs[1]
+			switch x.P("order", 0) {
+			case 0:
+				s0.Close()
+				vsched.WaitIdle("first connection lost")
+				c19quiescent(x, c, vc, "one of two connections lost")
+				s1.Close()
+			case 1:
+				s1.Close()
+				vsched.WaitIdle("second connection lost")
+				c19quiescent(x, c, vc, "one of two connections lost")
+				s0.Close()
+			default:
+				d0, d1 := false, false
+				vsched.GoNamed("drop0", func() { s0.Close(); d0 = true })
+				vsched.GoNamed("drop1", func() { s1.Close(); d1 = true })
+				vsched.Join("both dropped", func() bool { return d0 && d1 })
+			}
+			ch.Free()
+			if mode == ClientMode_AutoConnect {
+				vsched.Join("reconnected by itself after both connections were lost", func() bool {
+					return c.connected_.IsSet() && vc.dials > before && vc.live() > 0
+				})
+			}
+			vsched.WaitIdle("quiesce")
+			c19quiescent(x, c, vc, "both connections lost")
+			if mode != ClientMode_AutoConnect {
+				ch2, st := c.Channel(async.NoContext())
+				if !st.OK() || !c19echo(ch2) {
+					x.Fail("on-demand client does not recover on its next call", "%v", st)
+				} else {
+					ch2.Free()
+				}
+				vsched.WaitIdle("quiesce")
+				c19quiescent(x, c, vc, "recovered on demand")
+			}
+			c.Close()
+			vsched.WaitIdle("quiesce")
+			c19quiescent(x, c, vc, "after Close")
+			x.Outcome = fmt.Sprintf("dials=%d maxLive=%d", vc.dials, vc.maxLive)
+		},
+	})
+
 	// function level: the back-off for every attempt number
 	vexp.Register(&vexp.Scenario{
 		Name: "c19.F.reconnect-timeout-all-attempts", Prop: "C19",
